@@ -47,7 +47,7 @@ structure NumOps (V : Type) where
   eq : V → V → Bool
   ofNat : Nat → V
   parse : Bytes → Option V           -- strconv.ParseFloat(s, 64)
-  durSeconds : Int → V                -- float64(d.Milliseconds()) / 1000 for a duration in ns
+  durSeconds : Int → V                -- float64(d.Nanoseconds()) / 1e9 for a duration in ns (was: float64(d.Milliseconds()) / 1000, truncating; fixed)
 
 /- the value the jx decoder walks. `bad` is the point where decoding fails; nothing after it is visited. -/
 mutual
